@@ -146,8 +146,9 @@ class MarkovChain(ABC):
         # sort the sample by probability
         sample = sample[sorter, :]
         probs = probs[sorter]
-        # trim lowest-probability samples
-        cutoff = int(probs.size * (1 - interval))
+        # trim lowest-probability samples (the product is rounded to well below one sample
+        # first: in floating point e.g. 100 * (1 - 0.9) is 9.999999999999998, not 10)
+        cutoff = int(round(probs.size * (1 - interval), 8))
         sample = sample[cutoff:, :]
         probs = probs[cutoff:]
 
